@@ -327,6 +327,10 @@ fn after_dispatch(sim: &Rc<Sim>, t: Timeout, ok: bool, err: Option<String>, t_st
     if sim.is_dead() {
         return;
     }
+    crate::sig::after_dispatch(sim, ok);
+    if sim.is_dead() {
+        return;
+    }
     // ---- C12: the wait
     if waits.len() != 1 && (ok || waits.len() > 1) {
         // an error before the wait (before_sleep) legitimately gives 0 waits
@@ -354,6 +358,8 @@ fn after_dispatch(sim: &Rc<Sim>, t: Timeout, ok: bool, err: Option<String>, t_st
                 K::Ping(_) => vec!["C03"],
                 K::Channel(_) => vec!["C04"],
                 K::Timer(_) => vec!["C05"],
+                K::Sig(_) => vec!["C19"],
+                K::Exec(_) | K::Stream(_) => vec!["C10"],
                 _ => vec![],
             };
             if s.reenabled {
@@ -621,6 +627,7 @@ fn compute_must(sim: &Sim) {
                 }
             }
             K::Sig(k) => {
+                k.pending_at_wait = k.pending;
                 if (0..4).any(|i| k.pending[i] && k.configured.contains(&(i as u8))) {
                     must.insert(*id, Must::Callback);
                 }
